@@ -30,6 +30,7 @@ type c08Case struct {
 	hasAdmin bool
 	focus    []string
 	evalQ    [][]string // eval command lines (worlds of bare pods only)
+	spell    bool       // variants also spell the directory arguments differently (./a, a/, b/../a): same resources
 }
 
 type c08Variant struct {
@@ -321,11 +322,32 @@ func caseDigest(c *c08Case) string {
 
 // c08Mismatch is the first (variant, step) of a case whose event differs from the baseline's.
 type c08Mismatch struct {
-	c    *c08Case
-	base *c08Variant
-	v    *c08Variant
-	step job.Step
-	cli  []string // set for an eval query through the CLI entry point (then step is unused)
+	c       *c08Case
+	base    *c08Variant
+	v       *c08Variant
+	step    job.Step
+	cli     []string // set for a command through the CLI process (then step is unused)
+	cliBase []string // the baseline's spelling of that command line
+}
+
+// respell rewrites the directory arguments of a command line into another spelling of the same path.
+func respell(q []string, k int) []string {
+	out := append([]string{}, q...)
+	for i := 0; i+1 < len(out); i++ {
+		switch out[i] {
+		case "--dirpath", "--dir1", "--dir2":
+			d := out[i+1]
+			switch (k / 2) % 3 {
+			case 0:
+				out[i+1] = "./" + d
+			case 1:
+				out[i+1] = d + "/"
+			default:
+				out[i+1] = d + "/../" + d
+			}
+		}
+	}
+	return out
 }
 
 func (m *c08Mismatch) cmdDesc() string {
@@ -450,6 +472,7 @@ func runC08(tier string, seed uint64) int {
 			l = append(l, "--exposure")
 		}
 		cases[ci].evalQ = append(cases[ci].evalQ, l, []string{"diff", "--dir1", "a", "--dir2", "b", "-o", pick(r, []string{"txt", "csv", "md", "dot"}), "-q"})
+		cases[ci].spell = r.chance(1, 2)
 	}
 	st := &c08Stats{nontrivial: map[string]bool{}, peerOrders: map[string]bool{}, byKind: map[string]int{}, byFmt: map[string]int{}}
 	type caseOut struct {
@@ -543,6 +566,9 @@ func runC08(tier string, seed uint64) int {
 				}
 				for qi, q := range c.evalQ {
 					run := c.run(v, nil, false)
+					if c.spell && k > 0 {
+						q = respell(q, k)
+					}
 					run.Job, run.CLI, run.Seed, run.RealEx = nil, q, v.seed, true
 					res := execute(&run)
 					o.execs++
@@ -554,7 +580,7 @@ func runC08(tier string, seed uint64) int {
 					if k == 0 {
 						baseOut = append(baseOut, d)
 					} else if baseOut[qi] != d && o.mm == nil {
-						o.mm = &c08Mismatch{c: c, base: base, v: v, cli: q}
+						o.mm = &c08Mismatch{c: c, base: base, v: v, cli: q, cliBase: c.evalQ[qi]}
 					}
 				}
 				o.evals += len(c.evalQ)
@@ -764,6 +790,9 @@ func c08Minimise(mm *c08Mismatch, seed uint64) *Replay {
 				}
 			}
 			if mm.cli != nil {
+				if v == mm.base && mm.cliBase != nil {
+					return Run{FS: fs, CLI: mm.cliBase, Seed: s, RealEx: true}
+				}
 				return Run{FS: fs, CLI: mm.cli, Seed: s, RealEx: true}
 			}
 			return Run{FS: fs, Job: &job.Job{ID: c.name + "/" + v.kind, MapSeed: s, Steps: steps, KeepOut: true}}
